@@ -21,6 +21,7 @@ type Result struct {
 	File    string
 	Output  string
 	Agree   []string // solvers that independently answered unsat (thorough tier)
+	Vacuous bool
 }
 
 // Background returns the SMT text shared by all obligations of the function.
@@ -98,10 +99,15 @@ func runSolver(sp solverSpec, file string, timeoutS int) (status, out string, se
 
 // solveAll discharges obligations in parallel. Strategy per obligation: z3-new with the tier budget first; if it does not
 // answer unsat, the other two solvers are tried. In the thorough tier every unsat needs a second solver's agreement.
+var budgetOverride = 0
+
 func solveAll(outDir string, bg string, obls []*Obligation, tier string, workers int, seed int) []*Result {
 	budget := 10
 	if tier == "thorough" {
 		budget = 60
+	}
+	if budgetOverride > 0 {
+		budget = budgetOverride
 	}
 	os.MkdirAll(outDir, 0o755)
 	results := make([]*Result, len(obls))
